@@ -18,6 +18,7 @@ import Mathlib.Analysis.Calculus.Deriv.Add
 import Mathlib.Analysis.Calculus.Deriv.Mul
 import Mathlib.Analysis.Calculus.MeanValue
 import Mathlib.Analysis.SpecialFunctions.Trigonometric.Deriv
+import Mathlib.Analysis.SpecialFunctions.Trigonometric.Bounds
 /-!
 # C03 — discretised dynamics and integrals converge to the continuous-time model (partial)
 
@@ -725,6 +726,43 @@ theorem rk4_convergence (f : E → ℝ → E) (x x2 : ℝ → E) (y : ℕ → E)
       calc _ ≤ C2 * h ^ 2 + (L * F + Lt) / 2 * h ^ 2 := add_le_add loc dev
         _ = (C2 + (L * F + Lt) / 2) * h ^ (1 + 1) := by ring) n
   simpa using this
+
+/-- non-vacuity: every hypothesis of `rk4_convergence` holds for the state- and time-dependent ODE `x' = sin(x − sin t) + cos t` with
+the solution `x = sin t` (`L = 1`, `Lt = 2`, `F = 2`, `C₂ = 1`) -/
+example (y : ℕ → ℝ) (h : ℝ) (hh : 0 < h) (hy0 : y 0 = Real.sin 0)
+    (hy : ∀ n, y (n + 1) = Spec.rk4 (fun u s => Real.sin (u - Real.sin s) + Real.cos s) (y n) (0 + n * h) h) :
+    ∀ n : ℕ, ‖Real.sin (0 + n * h) - y n‖ ≤ (1 + (1 * 2 + 2) / 2) / rkLam 1 h * h * ((1 + h * rkLam 1 h) ^ n - 1) :=
+  rk4_convergence (fun u s => Real.sin (u - Real.sin s) + Real.cos s) Real.sin (fun s => -Real.sin s) y 0 h 1 2 2 1 hh one_pos (by norm_num)
+    (fun s => by
+      have : Real.sin (Real.sin s - Real.sin s) + Real.cos s = Real.cos s := by simp
+      rw [this]; exact Real.hasDerivAt_sin s)
+    (fun s => by
+      have : (fun s => Real.sin (Real.sin s - Real.sin s) + Real.cos s) = Real.cos := by funext s; simp
+      rw [this]; exact Real.hasDerivAt_cos s)
+    (fun s => by rw [norm_neg]; exact Real.abs_sin_le_one s)
+    (fun u v s => by
+      have : Real.sin (u - Real.sin s) + Real.cos s - (Real.sin (v - Real.sin s) + Real.cos s) =
+          Real.sin (u - Real.sin s) - Real.sin (v - Real.sin s) := by ring
+      rw [this, one_mul, Real.norm_eq_abs, Real.norm_eq_abs]
+      have := Real.abs_sin_sub_sin_le (u - Real.sin s) (v - Real.sin s)
+      simpa using this)
+    (fun u s s' => by
+      have e : Real.sin (u - Real.sin s) + Real.cos s - (Real.sin (u - Real.sin s') + Real.cos s') =
+          (Real.sin (u - Real.sin s) - Real.sin (u - Real.sin s')) + (Real.cos s - Real.cos s') := by ring
+      rw [e, Real.norm_eq_abs]
+      have a := Real.abs_sin_sub_sin_le (u - Real.sin s) (u - Real.sin s')
+      have a' : |u - Real.sin s - (u - Real.sin s')| = |Real.sin s - Real.sin s'| := by
+        rw [← abs_neg]; congr 1; ring
+      rw [a'] at a
+      have b := Real.abs_sin_sub_sin_le s s'
+      have c := Real.abs_cos_sub_cos_le s s'
+      calc |_ + _| ≤ |Real.sin (u - Real.sin s) - Real.sin (u - Real.sin s')| + |Real.cos s - Real.cos s'| := abs_add_le _ _
+        _ ≤ 2 * |s - s'| := by linarith)
+    (fun u s => by
+      rw [Real.norm_eq_abs]
+      calc |_ + _| ≤ |Real.sin (u - Real.sin s)| + |Real.cos s| := abs_add_le _ _
+        _ ≤ 2 := by linarith [Real.abs_sin_le_one (u - Real.sin s), Real.abs_cos_le_one s])
+    hy0 hy
 
 end rk4_general
 
